@@ -123,6 +123,8 @@ func craftRoots(s *world.Server, curNB, curNA, nextNB, nextNA time.Duration) (*t
 	return roots, ck, nk
 }
 
+var advOrderedWorlds atomic.Int64
+
 func newAdvWorld(name, storage string, wrap ...bool) *advWorld {
 	w := &advWorld{name: name, storage: storage}
 	cfg := world.ServerCfg{Backend: storage, StorageWrap: len(wrap) > 0 && wrap[0]}
@@ -141,6 +143,8 @@ func newAdvWorld(name, storage string, wrap ...bool) *advWorld {
 	}
 	if ol, ok := w.s.Inner.(*world.OrderedLoader); ok {
 		w.ol = ol
+		// every other such world answers an unknown node ID the way a database does: no records, no error
+		ol.EmptyIsNil = advOrderedWorlds.Add(1)%2 == 0
 	}
 	var err error
 	w.roots, err = w.s.Roots()
@@ -290,7 +294,7 @@ func (w *advWorld) buildProduct(c advCase) (world.ClientSpec, advVerdict, bool) 
 		if len(chain) == 0 {
 			return world.ClientSpec{}, v, false
 		}
-	case "stacked-ca", "stacked-leaf":
+	case "stacked-ca", "stacked-leaf", "stacked-issued-by-node":
 		// the peer's own certificate first (TLS proves possession of that one only), a registered
 		// node's genuine chain behind it: public material, no root-certified key is held
 		if node == nil {
@@ -305,7 +309,14 @@ func (w *advWorld) buildProduct(c advCase) (world.ClientSpec, advVerdict, bool) 
 		own := world.NewKeys()
 		stackedSigner = own.Priv
 		var first []byte
-		if c.Cert == "stacked-ca" {
+		if c.Cert == "stacked-issued-by-node" {
+			// a certificate for the peer's own throw-away key that claims the named node's key as its subject key
+			// ID, issued with the key of another registered node (whose genuine certificate follows as if it were an
+			// intermediate): node certificates certify nothing
+			ob := w.B.Creds.CertificateBundles[i]
+			first = world.MintLeaf(world.ParseCert(ob.CertificateDer), w.B.K.Priv, own.Pub, world.LeafSpec{SubjectKeyID: k.Pkix, CommonName: k.KeyID, DNSNames: []string{k.KeyID}, EKU: []x509.ExtKeyUsage{x509.ExtKeyUsageClientAuth}, NotBefore: now.Add(-time.Hour), NotAfter: now.Add(24 * time.Hour)})
+			b = ob
+		} else if c.Cert == "stacked-ca" {
 			first = world.MintSelfSigned(own, world.LeafSpec{SubjectKeyID: own.Pkix, CommonName: own.KeyID, DNSNames: []string{own.KeyID}, EKU: []x509.ExtKeyUsage{x509.ExtKeyUsageClientAuth}, NotBefore: now.Add(-time.Hour), NotAfter: now.Add(24 * time.Hour)})
 		} else {
 			first = world.MintLeaf(w.foreign.cert, w.foreign.root.Priv, own.Pub, world.LeafSpec{SubjectKeyID: own.Pkix, CommonName: own.KeyID, DNSNames: []string{own.KeyID}, EKU: []x509.ExtKeyUsage{x509.ExtKeyUsageClientAuth}, NotBefore: now.Add(-time.Hour), NotAfter: now.Add(24 * time.Hour)})
@@ -823,7 +834,36 @@ func runSeq(c *engine.Ctx, ac advCase) {
 				chain = [][]byte{world.MintSelfSigned(st.n.K, world.LeafSpec{SubjectKeyID: st.n.K.Pkix, NotBefore: now.Add(-time.Hour), NotAfter: now.Add(time.Hour), EKU: []x509.ExtKeyUsage{x509.ExtKeyUsageClientAuth}})}
 			}
 			if !st.registered && frec != nil {
-				// first, on every other such step: the connection attempt while the server's storage has a hiccup: the first (or second)
+				// a credential fetch of this key (what a node without a record keeps doing: refused), and then an
+				// authentication request that repeats what the fetch made the server see - same key, the fetch's nonce,
+				// the common name of an unauthorized fetch - with a signature that is no signature. Nothing a fetch
+				// handshake left behind on the listener authenticates anybody.
+				pollCreds := proto.Clone(st.n.Creds).(*types.NodeCredentials)
+				pollCreds.RegistrationNonce = world.RandBytes(nodeenrollment.NonceSize)
+				if freq, ferr := pollCreds.CreateFetchNodeCredentialsRequest(s.Ctx); ferr == nil {
+					fcs := world.ClientSpec{Protos: world.FetchProtos(freq), Chain: [][]byte{world.MintSelfSigned(st.n.K, world.LeafSpec{SubjectKeyID: st.n.K.Pkix, DNSNames: []string{nodeenrollment.CommonDnsName}, NotBefore: time.Now().Add(-time.Minute), NotAfter: time.Now().Add(time.Minute), EKU: []x509.ExtKeyUsage{x509.ExtKeyUsageClientAuth}})}, Signer: st.n.K.Priv}
+					if rec, res, ok := runClient(c, lw, fcs); ok {
+						finishConn(rec, res)
+					}
+					finfo := new(types.FetchNodeCredentialsInfo)
+					_ = proto.Unmarshal(freq.Bundle, finfo)
+					for _, sig := range [][]byte{world.RandBytes(64), nil} {
+						areq := &types.GenerateServerCertificatesRequest{CertificatePublicKeyPkix: st.n.K.Pkix, Nonce: finfo.Nonce, CommonName: nodeenrollment.CommonDnsName, NonceSignature: sig}
+						acs := world.ClientSpec{Protos: append(world.AuthProtos(areq), world.CertPref(curID)), Chain: chain, Signer: st.n.K.Priv}
+						rec, res, ok := runClient(c, lw, acs)
+						if !ok {
+							return
+						}
+						c.R.Eval(fmt.Sprintf("seq %s step %d authentication repeating a fetch (signature %d bytes)", ac.Ops, step, len(sig)), true)
+						if rec.Authenticated() {
+							c.R.Violation(fmt.Sprintf("unauthorized-auth:sequence,repeats-a-fetch,everRegistered=%v", st.everHad), fmt.Sprintf("node authenticated at step %d of %q although its record is not in storage: its request repeated key, nonce and common name of its earlier credential fetch and carried no valid signature", step, ac.Ops), ac)
+						} else {
+							c.R.Count("seq_unregistered_rejected_when_repeating_a_fetch", 1)
+						}
+						finishConn(rec, res)
+					}
+				}
+				// then, on every such step: the connection attempt while the server's storage has a hiccup: the first (or second)
 				// storage operation of the handshake fails with an error that says nothing about absence. A node
 				// without a record is not authenticated on the strength of what the server saw earlier.
 				for _, pos := range []int{1, 2} {
@@ -1018,7 +1058,7 @@ func runTLSAdv(c *engine.Ctx) engine.Result {
 	for _, wn := range []string{"normal", "both", "expired"} {
 		for _, st := range []string{world.Inmem, world.Ordered} {
 			for _, id := range []string{"A", "R", "U"} {
-				for _, cert := range []string{"cur", "next", "otherleaf", "foreign", "selfsigned", "serverauth", "stacked-ca", "stacked-leaf"} {
+				for _, cert := range []string{"cur", "next", "otherleaf", "foreign", "selfsigned", "serverauth", "stacked-ca", "stacked-leaf", "stacked-issued-by-node"} {
 					if id == "U" && (cert == "cur" || cert == "next") {
 						continue
 					}
@@ -1257,6 +1297,7 @@ func runTLSAdv(c *engine.Ctx) engine.Result {
 	r.Require("mutations_that_still_decode", 10)
 	r.Require("seq_registered_connects", 10)
 	r.Require("seq_unregistered_rejected_under_a_storage_fault", 20)
+	r.Require("seq_unregistered_rejected_when_repeating_a_fetch", 20)
 	r.Require("worlds_with_storage_wrapper", 3)
 	r.Require("replaced_roots_rejected", 4)
 	r.Require("other_servers_roots_rejected", 4)
